@@ -901,6 +901,17 @@ class FedSim(object):
                 rec["benign_ok"] = bool(rec2.get("ok"))
                 if rec2.get("ok"):
                     fl.responses.pop()      # the probe's response is not part of the run
+                elif (p.get("sigalg") or p.get("digalg")) and not p.get("dialect"):
+                    # second probe: the same request with the default algorithms.  If that works, the explicit
+                    # (supported) algorithm choice made the provider fail (C08: every digest/signature setting)
+                    ev3 = copy.deepcopy(ev)
+                    ev3["_benign"] = True
+                    ev3.setdefault("p", {}).pop("sigalg", None)
+                    ev3["p"].pop("digalg", None)
+                    rec3 = self.make_response(ev3, fl, idp, ra, {"f": rec.get("f"), "idp": idp.name})
+                    rec["default_alg_ok"] = bool(rec3.get("ok"))
+                    if rec3.get("ok"):
+                        fl.responses.pop()
             return rec
         rec["tool"] = self.tool_slice(n0)
         binding = "post" if (ra.get("binding") or BINDING_HTTP_POST) == BINDING_HTTP_POST else "redirect"
@@ -1056,10 +1067,25 @@ class FedSim(object):
                     a2.signature = pre_signature_part(a2.id, sec.my_cert, 2, sign_alg=p.get("sigalg"),
                                                       digest_alg=p.get("digalg"))
                     to_sign.append((class_name(a2), a2.id))
-                robj.assertion = [a2]
+                if pn.get("where") == "wrapper":
+                    # ... inside the EncryptedAssertion element itself, after the EncryptedData: what comes out
+                    # of that element when the SP opens it is two assertions, the decrypted one first
+                    robj.encrypted_assertion[0].add_extension_element(a2)
+                    self.count("dialect.plain-inside-encrypted-wrapper")
+                else:
+                    robj.assertion = [a2]
+                self.count("dialect.plain-next-to-encrypted")
+                if pn.get("signed") == "bogus":
+                    # signed, then edited: a signature that is present and does not verify
+                    out_ = signed_instance_factory(robj, sec, to_sign)
+                    tag_ = "plain-%s" % resp.id[-6:]
+                    out_ = ("%s" % out_).replace(tag_, "plaiN-" + tag_[6:])
+                    self.count("dialect.plain-twin-bogus-signature")
+                    if sign_r:
+                        out_ = signed_instance_factory(out_, sec, [(class_name(robj), robj.id)])
+                    return out_
                 if sign_r:
                     to_sign.append((class_name(robj), robj.id))
-                self.count("dialect.plain-next-to-encrypted")
                 return signed_instance_factory(robj, sec, to_sign) if to_sign else robj
             if sign_r:
                 doc = signed_instance_factory(doc, sec, [(class_name(resp), resp.id)])
